@@ -13,7 +13,7 @@ import json, os, re, shutil, subprocess, sys, time
 
 VERIF = os.path.dirname(os.path.dirname(os.path.abspath(__file__)))
 SEEDED = os.path.join(VERIF, "seeded")
-REPO = "/repo"
+REPO = os.environ.get("VERIF_REPO", "/repo")  # the registered procedure uses /repo; a background sweep may point at a copy
 
 
 def sh(cmd, cwd=None, timeout=None):
